@@ -78,7 +78,9 @@ func rank(s Status) int {
 }
 
 // OK records a discharged obligation.
-func (r *Report) OK(rule, construct, pos, msg string) { r.add(rule, construct, Discharged, pos, msg, true) }
+func (r *Report) OK(rule, construct, pos, msg string) {
+	r.add(rule, construct, Discharged, pos, msg, true)
+}
 
 // OKTable records an obligation discharged by a table lookup (trivial).
 func (r *Report) OKTable(rule, construct, pos, msg string) {
@@ -86,7 +88,9 @@ func (r *Report) OKTable(rule, construct, pos, msg string) {
 }
 
 // Bad records a violated obligation.
-func (r *Report) Bad(rule, construct, pos, msg string) { r.add(rule, construct, Violated, pos, msg, true) }
+func (r *Report) Bad(rule, construct, pos, msg string) {
+	r.add(rule, construct, Violated, pos, msg, true)
+}
 
 // Unknown records an obligation the checker could not decide; it fails the check.
 func (r *Report) Unknown(rule, construct, pos, msg string) {
@@ -229,6 +233,15 @@ func (r *Report) Finish(verifDir string, explanation string, notDecided []string
 		ruleList = append(ruleList, k)
 	}
 	sort.Strings(ruleList)
+	byRule := map[string]map[string]int{}
+	for _, o := range r.Obs {
+		m := byRule[o.Rule]
+		if m == nil {
+			m = map[string]int{}
+			byRule[o.Rule] = m
+		}
+		m[string(o.Status)]++
+	}
 	cov := map[string]any{
 		"explanation":         explanation,
 		"not_decided":         notDecided,
@@ -240,6 +253,7 @@ func (r *Report) Finish(verifDir string, explanation string, notDecided []string
 		"distinct_nontrivial": nNon,
 		"rule":                "one obligation per rule+construct enumerated from the type-checked program of /repo's working tree; non-trivial = required a dataflow, dominance, control-dependence or effect argument rather than a table lookup",
 		"rules":               ruleList,
+		"obligations_by_rule": byRule,
 		"instance_floors":     r.Floors,
 		"samples":             samples,
 		"checker_cmd":         strings.Join(os.Args, " "),
